@@ -219,6 +219,14 @@ def curated_programs() -> list[dict]:
                          "xx": {"units": {"r": 1}, "vers": [_t("leaf", 1)]},
                          "slow": {"units": {"r": 1}, "vers": [_t("leaf", 3)]}},
                "plan": [RUN, RUN]})
+    # 21. call-time limits: two calls of a task whose definition asks for one unit, each made with
+    #     .options(limits={"r": 2}) under a limit of 2: they can never run together
+    ps.append({"ns": "cur21", "res": ["r"], "limits": {"r": 2}, "root": {"t": "main", "arg": 0},
+               "tasks": {"main": {"units": {}, "vers": [_t("calls", 0, [dict(_c("leaf", "c", 1), u={"r": 2}),
+                                                                         dict(_c("leaf", "c", 2), u={"r": 2}),
+                                                                         _c("leaf", "c", 3)])]},
+                         "leaf": {"units": {"r": 1}, "vers": [_t("leaf", 1)]}},
+               "plan": [RUN]})
     return [progen.normalize(p) for p in ps]
 
 
